@@ -14,6 +14,8 @@ SeqOfSet(S) == IF S = {} THEN <<>> ELSE LET x == CHOOSE x \in S : TRUE IN <<x>> 
 
 \* env : name -> tensor (values).  The property semantics: a caller-supplied value wins over an initializer of the same name.
 Env0(g, ins) == [n \in (DOMAIN g.inits) \cup (DOMAIN ins) |-> IF n \in DOMAIN ins THEN ins[n] ELSE g.inits[n]]
+\* (an empty name is "this optional input is absent" whatever the environment holds - a stray entry "" in the caller's feed, an
+\* initializer without a name: the harness repeats the first call of every model case that skips an input with both)
 GatherVals(env, names) == [i \in 1..Len(names) |-> IF names[i] = "" THEN Nil ELSE env[names[i]]]
 Known_(env, names) == \A i \in 1..Len(names) : names[i] = "" \/ names[i] \in DOMAIN env
 BindVals(env, names, vals) ==
